@@ -198,6 +198,7 @@ type sClient struct {
 }
 
 type sysEnv struct {
+	wedged  bool // a lock wedge inside Helios was diagnosed: teardown must not take Helios locks
 	x        *X
 	net      *simnet.Net
 	cfg      *config.Config
@@ -902,7 +903,9 @@ func (env *sysEnv) close() {
 	if env.srv != nil {
 		env.srv.Close()
 	}
-	if env.lb != nil {
+	if env.lb != nil && !env.wedged {
+		// (after a diagnosed lock wedge Stop could wait for ever on the same locks; the stuck
+		// goroutines are abandoned with the bubble instead)
 		env.lb.Stop()
 	}
 	env.net.CloseAll()
